@@ -69,13 +69,16 @@ class NetworkXPropertyGraph(ABCPropertyGraph, NetworkXMixin):
         """
         if validate_json:
             self._validate_all_json_properties()
-        # check that all nodes and links have 'Class' property
-        for n in self.storage.get_graph(self.graph_id).nodes:
-            if self.storage.get_graph(self.graph_id).nodes[n].get(ABCPropertyGraph.PROP_CLASS, None) is None:
+        # check that all nodes and links of this graph have 'Class' property
+        # (the store may hold other graphs side by side, only look at our own nodes)
+        graph = self.storage.get_graph(self.graph_id)
+        own = {n for n in graph.nodes if graph.nodes[n].get(ABCPropertyGraph.GRAPH_ID, None) == self.graph_id}
+        for n in own:
+            if graph.nodes[n].get(ABCPropertyGraph.PROP_CLASS, None) is None:
                 raise PropertyGraphImportException(graph_id=self.graph_id,
                                                    msg="Some nodes are missing 'Class' property")
-        for e in self.storage.get_graph(self.graph_id).edges:
-            if self.storage.get_graph(self.graph_id).edges[e].get(ABCPropertyGraph.PROP_CLASS, None) is None:
+        for e in graph.edges:
+            if e[0] in own and e[1] in own and graph.edges[e].get(ABCPropertyGraph.PROP_CLASS, None) is None:
                 raise PropertyGraphImportException(graph_id=self.graph_id,
                                                    msg="Some edges are missing 'Class' property")
 
